@@ -1649,3 +1649,24 @@ Proof.
   refine (N [EGet 3 0 (PReader 1); EAcc 0; EMov 0 (PFrag 7); EAcc 0] 19 0 [EAcc 0] eq_refl _).
   left. reflexivity.
 Qed.
+
+(* ------------------------------------------------------------------ statements as used by Props/C12.v *)
+
+Theorem at_most_once_thm : forall cap ls s,
+  run false (init cap) ls = Some s -> released_at_most_once (history s).
+Proof. intros cap ls s H. exact (proj1 (safety cap ls s H)). Qed.
+
+Theorem no_use_after_release_thm : forall cap ls s,
+  run false (init cap) ls = Some s -> no_use_after_release (history s).
+Proof. intros cap ls s H. exact (proj1 (proj2 (safety cap ls s H))). Qed.
+
+Theorem only_pool_frames_thm : forall cap ls s,
+  run false (init cap) ls = Some s -> only_pool_frames (history s).
+Proof. intros cap ls s H. exact (proj2 (proj2 (safety cap ls s H))). Qed.
+
+Theorem noloss_is_run_thm : forall cap ls s, run_noloss (init cap) ls = Some s -> run false (init cap) ls = Some s.
+Proof. intros cap ls s. exact (run_noloss_run ls (init cap) s). Qed.
+
+Theorem sites_known_thm : forall cap ls s,
+  run false (init cap) ls = Some s -> Forall site_known (s_trace s).
+Proof. intros cap ls s H. exact (run_sites ls (init cap) s H (Forall_nil _)). Qed.
